@@ -16,7 +16,7 @@ func runC03(c *Ctx) {
 		if !p.HasRem {
 			continue // ReadLeaseSet returns no remainder
 		}
-		forInputsW(c, p, c.N(25, 300), 2, c.N(10, 150), func(input []byte, extra [][]byte, kind string, wlen int) {
+		forInputsW(c, p, c.N(25, 60), 2, c.N(10, 40), func(input []byte, extra [][]byte, kind string, wlen int) {
 			res := runParser(c, p, input, extra)
 			if !res.OK {
 				return
